@@ -1,4 +1,5 @@
 #!/bin/bash
+export VERIF_EVIDENCE_DIR=/verif/build/evidence-scratch
 # dev aid: apply a seeded change to /repo, run the given checks, undo.  usage: seedtest.sh <seed-dir> <Cxx> [<Cyy> ...]
 d=$1; shift
 git -C /repo apply /verif/seeded/$d/patch.diff || exit 2
